@@ -3,9 +3,10 @@
 The formatter is a text -> text function that (by its own description) only rewrites the blanks
 between tokens.  For a failing pair (src, out) this module
 
-  1. computes the character-level edit script src -> out (difflib, no junk heuristics),
-  2. delta-debugs the script: the smallest subset of the formatter's edits that, applied to `src`
-     alone, still makes the oracle fail (`isolate`),
+  1. computes the edit script src -> out: the tokens of `src` (xonsh's tokenizer) are located in `out` one after
+     the other (the formatter re-emits token text verbatim), so every edit is a whole inter-token gap - split per
+     physical line - or lies inside one string / comment token; token alignment and a character diff are fallbacks,
+  2. lets the check delta-debug the script (which edits have to be taken back for the rest to be right),
   3. describes every remaining edit by the *formatter rule class* that produces such an edit
      (decided from the two neighbouring tokens, in the priority order documented in the
      formatter's module docstring) and by the *lexical context* of the place in `src`
@@ -517,49 +518,21 @@ def apply_edits(src, edits):
     return "".join(out)
 
 
-def isolate(src, edits, fails, budget=400):
-    """1-minimal subset of `edits` for which fails(apply_edits(src, subset)) holds (ddmin)."""
-    cur = list(edits)
-    calls = 0
-    n = 2
-    while len(cur) >= 2 and calls < budget:
-        chunk = max(1, len(cur) // n)
-        reduced = False
-        for i in range(0, len(cur), chunk):
-            cand = cur[:i] + cur[i + chunk:]
-            if not cand:
-                continue
-            calls += 1
-            if fails(apply_edits(src, cand)):
-                cur = cand
-                n = max(n - 1, 2)
-                reduced = True
-                break
-        if not reduced:
-            if chunk == 1:
-                break
-            n = min(len(cur), n * 2)
-    return cur
-
-
 # ----------------------------------------------------------------------------------------
 # description of one edit
 
 
 def _tok_at(toks, a, b):
-    """(inside, prev, next): the token strictly containing the edit (or None), the last token ending
-    at or before a, the first token starting at or after b."""
+    """(inside, prev, next): the token that contains the edit [a, b) without being replaced as a whole
+    (or None), the last token ending at or before a, the first token starting at or after b."""
     inside = prev = nxt = None
     for t in toks:
-        if t.b > t.a and t.a <= a and b <= t.b and not (a == b and a in (t.a, t.b)) and not (a == t.a and b == t.b and False):
-            if t.a < a or b < t.b or a < b:
-                if not (b <= t.a or a >= t.b):
-                    inside = t
-                elif a == b and t.a < a < t.b:
-                    inside = t
+        if t.b > t.a and t.a <= a and b <= t.b and (a > t.a or b < t.b) and not (a == b and a in (t.a, t.b)):
+            inside = t
+            continue
         if t.b <= a:
             prev = t
-        if nxt is None and t.a >= b and t is not inside:
+        if nxt is None and t.a >= b:
             nxt = t
     return inside, prev, nxt
 
